@@ -176,6 +176,8 @@ def ev(e, env):
             return not v
         if isinstance(e.op, ast.USub):
             return -v
+        if isinstance(e.op, ast.Invert) and isinstance(v, int) and not isinstance(v, bool):
+            return ~v
         raise Unknown(key)
     if isinstance(e, ast.BoolOp):
         # three-valued: the operands are side-effect free, so one decided falsy (truthy) operand
@@ -318,6 +320,12 @@ def ev(e, env):
             except Unknown:
                 recv = None
             return hooks[e.func.attr](recv, *[ev(a, env) for a in e.args])
+    if isinstance(e, ast.Call) and not e.keywords and isinstance(e.func, ast.Call) and env.get("__stmts__") \
+            and env.get("__calls__") and isinstance(e.func.func, ast.Name) and e.func.func.id in env["__calls__"]:
+        # `getattr(module, name)(...)`: the hook hands back the checker's own stand-in
+        f_ = ev(e.func, env)
+        if callable(f_):
+            return f_(*[ev(a, env) for a in e.args])
     if isinstance(e, ast.Call) and not e.keywords and isinstance(e.func, ast.Attribute):
         # a method of a record that the row binds (`state.getSeqNumBytes()` -> field "getSeqNumBytes()"),
         # or of one of the checker's own sample objects (MAC accumulators)
@@ -545,6 +553,12 @@ def exec_block(stmts, env, stop=None):
                     except Unknown:
                         env.pop("self." + tg.attr, None)
                     continue
+                if isinstance(tg, ast.Subscript) and isinstance(tg.value, ast.Name) \
+                        and isinstance(env.get(tg.value.id), (bytes, bytearray)) and not isinstance(tg.slice, ast.Slice):
+                    b_ = bytearray(env[tg.value.id])      # a followed local byte string: the store is followed too
+                    b_[ev(tg.slice, env)] = ev(st.value, env)
+                    env[tg.value.id] = bytes(b_)
+                    continue
                 if isinstance(tg, (ast.Attribute, ast.Subscript)):
                     continue        # state of the object itself is not followed
                 try:
@@ -602,6 +616,15 @@ def exec_block(stmts, env, stop=None):
             raise _Continue()
         if env.get("__stmts__"):
             # whole-function interpretation (sample values): a few more statement kinds
+            if isinstance(st, ast.AugAssign) and isinstance(st.target, ast.Subscript) \
+                    and isinstance(st.target.value, ast.Name) and not isinstance(st.target.slice, ast.Slice) \
+                    and isinstance(env.get(st.target.value.id), (bytes, bytearray)) \
+                    and type(st.op) in (ast.BitAnd, ast.BitOr, ast.BitXor):
+                b_ = bytearray(env[st.target.value.id])
+                i_, r = ev(st.target.slice, env), ev(st.value, env)
+                b_[i_] = {ast.BitAnd: b_[i_] & r, ast.BitOr: b_[i_] | r, ast.BitXor: b_[i_] ^ r}[type(st.op)]
+                env[st.target.value.id] = bytes(b_)
+                continue
             if isinstance(st, ast.AugAssign) and isinstance(st.target, ast.Name):
                 if st.target.id not in env:
                     raise Unknown(st.target.id)
